@@ -8,6 +8,8 @@ LENS_T = dict(n=3, d=2, L=3, s=3, o=3)
 
 def _prog_for(kind, name, unit="program"):
     if kind == "spec":
+        if "mod" in T.flags(T.by_name(T.SPEC, name)):
+            return dict(unit="module_spec", spec=[name], exec=[])     # only legal in a module's specification part
         return dict(unit=unit, spec=[name], exec=["continue"])
     if kind == "exec":
         return dict(unit=unit, spec=[], exec=[name])
